@@ -948,6 +948,8 @@ void body()
         "buf/to_raw_vector/with-write-area", "read_chars/enough", "read_chars/too-few"})
     vf::require_bucket(b);
   std::uint64_t hist = vf::tier<std::uint64_t>(24000, 2000000);
+  if (vf::has_extra("--small")) // the memcheck pass (valgrind is 20-50x slower)
+    hist = 60000;
   rv_histories<int>(hist);
   rv_histories<unsigned char>(hist / 2);
   rv_histories<pod24>(hist / 2);
